@@ -164,32 +164,38 @@ def count_obligations(cfg):
     return n
 
 
-def coq_build(cfg, clean=False):
-    """Full .vo build of the property's closure. Returns (ok, log)."""
+def coq_build(cfg, clean=False, chk=False):
+    """Full .vo build of the property's closure (and, with chk, coqchk) under ONE hold of the coq lock.
+    Returns (ok, log, coqchk_rc, coqchk_output)."""
+    pid = cfg["id"]
     with Lock("coq"):
         sh(["./mkproject.sh"], cwd=COQ)
-        targets = [t for t in cfg.get("coq_targets", ["theories/%s/Properties.vo" % cfg["id"], "extract/%s.vo" % cfg["id"]])]
+        targets = [t for t in cfg.get("coq_targets", ["theories/%s/Properties.vo" % pid, "extract/%s.vo" % pid])]
         if clean:
-            for t in targets:
-                for ext in (".vo", ".glob", ".vos", ".vok"):
-                    try:
-                        os.remove(os.path.join(COQ, t[:-3] + ext))
-                    except OSError:
-                        pass
-            for f in coq_files(cfg):
+            # clean rebuild of the property's OWN files only (Base/ and Generated/ are shared with the
+            # other properties' concurrent checks; make rebuilds them when their sources change)
+            own = [f for f in coq_files(cfg) if os.sep + pid + os.sep in f] + glob.glob(os.path.join(COQ, "extract", pid + ".v"))
+            for f in own:
                 for ext in ("o", "os", "ok"):
                     try:
                         os.remove(f + ext)
                     except OSError:
                         pass
+                try:
+                    os.remove(f[:-2] + ".glob")
+                except OSError:
+                    pass
         rc, out, dt = sh(["timeout", "3000", "make", "-j16"] + targets, cwd=COQ, timeout=3100)
         if rc != 0:
-            return False, out
+            return False, out, None, None
         # always recompile Properties.v by hand to capture its Print Assumptions output
-        pf = os.path.join(COQ, "theories", cfg["id"], "Properties.v")
+        pf = os.path.join(COQ, "theories", pid, "Properties.v")
         rc, out2, dt = sh(["timeout", "1200", "coqc", "-Q", "theories", "Kardia", "-w", "-notation-overridden,-deprecated-hint-without-locality",
                            os.path.relpath(pf, COQ)], cwd=COQ, timeout=1300)
-        return rc == 0, out + "\n" + out2
+        crc, cout = None, None
+        if rc == 0 and chk:
+            crc, cout, dt = sh(["timeout", "3000", "coqchk", "-silent", "-o", "-Q", "theories", "Kardia", "Kardia.%s.Properties" % pid], cwd=COQ, timeout=3100)
+        return rc == 0, out + "\n" + out2, crc, cout
 
 
 def parse_assumptions(cfg, buildlog):
@@ -374,7 +380,8 @@ def check(pid, tier="quick", seed=None, replay=None):
                 problems.append({"what": "facts-regeneration", "detail": out[-2000:]})
         # ---- Coq
         bad = coq_audit(cfg)
-        okc, clog = coq_build(cfg, clean=(tier == "thorough"))
+        want_chk = (tier == "thorough" and cfg.get("coqchk", True))
+        okc, clog, crc, cout = coq_build(cfg, clean=(tier == "thorough"), chk=want_chk)
         theorems, assum = parse_assumptions(cfg, clog) if okc else ([], [])
         obligations = count_obligations(cfg)
         axioms_used = sorted({a for t in assum for a in t["axioms"]})
@@ -389,12 +396,10 @@ def check(pid, tier="quick", seed=None, replay=None):
         if okc and len(assum) < len(theorems):
             problems.append({"what": "coq-audit", "detail": "Properties.v: %d theorems but %d Print Assumptions" % (len(theorems), len(assum))})
         coqchk_out = None
-        if okc and tier == "thorough" and cfg.get("coqchk", True):
-            with Lock("coq"):
-                rc, out, dt = sh(["timeout", "3000", "coqchk", "-silent", "-o", "-Q", "theories", "Kardia", "Kardia.%s.Properties" % pid], cwd=COQ, timeout=3100)
-            coqchk_out = out[-3000:]
-            if rc != 0:
-                problems.append({"what": "coqchk", "detail": out[-2000:]})
+        if okc and want_chk:
+            coqchk_out = (cout or "")[-3000:]
+            if crc != 0:
+                problems.append({"what": "coqchk", "detail": (cout or "")[-2000:]})
         # ---- model binary
         okm = False
         if okc:
